@@ -97,7 +97,7 @@ package ipfslog
 //@ func (*IPFSLog).Append
 //@   requires logInv(l) && (l.Identity.Provider != nil && l.Identity.Signatures != nil) && len(l.Clock.(*entry.LamportClock).ID) > 0
 //@   requires l.Clock.(*entry.LamportClock).Time < 4611686018427387904 && (forall k string :: has(om(l.heads).values, k) ==> etime(om(l.heads).values[k]) < 4611686018427387904)
-//@   lockrequires held[l.lock] == 0 && held[om(l.Entries).lock] == 0 && held[om(l.heads).lock] == 0 && held[om(l.Next).lock] == 0
+//@   lockrequires noLocksHeld()
 //@   modifies l.Clock, l.heads, om(l.Entries).keys, mapof(om(l.Entries).values), om(l.Next).keys, mapof(om(l.Next).values)
 //@   ensures validEntries(l.Entries)
 //@   ensures validEntries(l.heads)
